@@ -13,6 +13,7 @@ from hypothesis import strategies as st
 from vlib import gen, observe, pdbio, common, refs, pkaparse
 
 PROPERTY = "C09"
+REDUCE_KEYS = ["pdb"]
 LEVEL = "exploration"
 RULE = ("stage 1: single groups with formal charge +-1, pKa in [-20, 40], pH in [-200, 200] incl. pH == pKa and "
         "neighbouring floats, pairs pH1 < pH2 for monotonicity; stage 2: generated structures (acids only, bases only, "
